@@ -219,6 +219,7 @@ type Obligation struct {
 	Static bool // decided by SSA scan rather than SMT
 	Detail string
 	Cover  bool // vacuity cover: expected sat
+	replayed bool
 }
 
 func newVC() *VC { return &VC{noteSet: map[string]bool{}} }
